@@ -30,11 +30,12 @@ CONSTANTS Slice           \* "full": all 9216 configurations; "quick": the 1152 
                           \* proof = intro -- every switch still takes every value, every conditional header both ways
 
 \* the route kinds probed: the quick slice probes the first eight
-QuickRoutes == <<"probe", "head_health", "get_health", "unary_ok", "unary_err", "unauth", "unknown_method", "too_large">>
+QuickRoutes == <<"probe", "head_health", "get_health", "unary_ok", "unary_err", "unauth", "unknown_method", "too_large",
+                 "auth_crash">>
 Routes == IF Slice = "full"
           THEN QuickRoutes \o <<"options_health", "not_found_page", "bad_ce", "bad_request", "bad_ct", "init", "exchange",
                                 "method_not_allowed", "options_rpc", "landing", "introspect_route", "session_delete",
-                                "upload_url", "exchange_bad">>
+                                "upload_url", "exchange_bad", "auth_unavailable", "cors_preflight", "outside_prefix">>
           ELSE QuickRoutes
 
 Bool == {TRUE, FALSE}
@@ -42,26 +43,43 @@ HeaderIds == {"maxreq", "maxresp", "maxext", "extenabled", "encodings", "upload"
               "sticky", "ttl", "echo", "introspect"}
 ListValued == {"encodings", "echo"}
 
-AllConfigs == [maxReq : Bool, maxResp : Bool, maxExt : Bool, ext : {"none", "nostorage", "storage"},
+\* Twelve switches decide the capability headers.  Three more describe the environment the app is built in and must
+\* NOT change them: a URL prefix, CORS, and whether the human-facing pages (404 page, landing page, describe page) are
+\* served.  They are not crossed with everything (that would be 73,728 apps); each is tied to two capability switches
+\* by an exclusive-or, which keeps the count at 9,216 while every (environment switch, capability switch) pair still
+\* takes all four value combinations (EnvPairsCovered, checked by TLC before enumeration).
+CapConfigs == [maxReq : Bool, maxResp : Bool, maxExt : Bool, ext : {"none", "nostorage", "storage"},
                upload : Bool, maxUpload : Bool, comp : {"zg", "g", "none"}, sticky : Bool, echo : Bool,
                proof : Bool, intro : Bool, auth : Bool]
+EnvOf(x) == [prefix |-> (x.maxReq # x.upload), cors |-> (x.sticky # x.maxUpload), pages |-> (x.maxExt # x.echo)]
+WithEnv(x) == [k \in DOMAIN x \cup {"prefix", "cors", "pages"} |->
+                 IF k \in {"prefix", "cors", "pages"} THEN EnvOf(x)[k] ELSE x[k]]
 InSlice(x) == Slice = "full" \/ (x.auth /\ (x.maxResp = x.maxExt) /\ (x.proof = x.intro))
-Configs == {x \in AllConfigs : InSlice(x)}
+Configs == {WithEnv(x) : x \in {y \in CapConfigs : InSlice(y)}}
+BoolSwitches == {"maxReq", "maxResp", "maxExt", "upload", "maxUpload", "sticky", "echo", "proof", "intro"}
+EnvPairsCovered == \A e \in {"prefix", "cors", "pages"} : \A k \in BoolSwitches : \A ve \in Bool : \A vk \in Bool :
+                      \E x \in Configs : x[e] = ve /\ x[k] = vk
+ASSUME EnvPairsCovered
 
 \* a route kind is applicable to a configuration when the request can be made at all
 Applicable(cfg, r) ==
   CASE r = "unauth"         -> cfg.auth
+    [] r = "auth_crash"     -> cfg.auth        \* the authenticator itself raises: an unhandled 500
+    [] r = "auth_unavailable" -> cfg.auth      \* the authority is down: 503
+    [] r = "cors_preflight" -> cfg.cors
+    [] r = "outside_prefix" -> cfg.prefix
     [] r = "too_large"      -> cfg.maxReq
     [] r = "upload_url"     -> cfg.upload
     [] r = "session_delete" -> cfg.sticky
     [] OTHER                -> TRUE
 
 \* split for TLC's workers: a seed fixes six of the switches, Expand enumerates the rest and the routes
-SeedOf(g) == [g EXCEPT !.maxResp = FALSE, !.maxExt = FALSE, !.maxUpload = FALSE, !.echo = FALSE, !.proof = FALSE,
-                        !.intro = FALSE]
+SeedOf(g) == WithEnv([g EXCEPT !.maxResp = FALSE, !.maxExt = FALSE, !.maxUpload = FALSE, !.echo = FALSE,
+                                !.proof = FALSE, !.intro = FALSE])
 Seeds == {[cfg |-> SeedOf(g), routes |-> <<>>] : g \in Configs}
 RoutesOf(g) == SelectSeq(Routes, LAMBDA r : Applicable(g, r))
-Variants(g) == {[g EXCEPT !.maxResp = b1, !.maxExt = b2, !.maxUpload = b3, !.echo = b4, !.proof = b5, !.intro = b6] :
+Variants(g) == {WithEnv([g EXCEPT !.maxResp = b1, !.maxExt = b2, !.maxUpload = b3, !.echo = b4, !.proof = b5,
+                                  !.intro = b6]) :
                   b1 \in Bool, b2 \in Bool, b3 \in Bool, b4 \in Bool, b5 \in Bool, b6 \in Bool}
 Expand(p) == {[cfg |-> g, routes |-> RoutesOf(g)] : g \in {x \in Variants(p.cfg) : InSlice(x)}}
 Cases == UNION {Expand(p) : p \in Seeds}
@@ -102,6 +120,9 @@ Expected(c) == SelectSeq(HeaderOrder, LAMBDA h : Emitted(c.cfg, h))
 \* ---------------------------------------------------------------- table sanity (TLC, every case)
 AlwaysTwo(c) == Emitted(c.cfg, "extenabled") /\ Emitted(c.cfg, "encodings")
 RouteIndependent(c) == Expected([c EXCEPT !.routes = <<>>]) = Expected(c)
+EnvironmentIndependent(c) ==      \* prefix, CORS and the pages never change the advertised capabilities
+  \A p \in Bool, q \in Bool, r \in Bool :
+     Expected([c EXCEPT !.cfg = [c.cfg EXCEPT !.prefix = p, !.cors = q, !.pages = r]]) = Expected(c)
 UploadBytesNeedsProvider(c) == Emitted(c.cfg, "maxupload") => Emitted(c.cfg, "upload")
 StickyFamily(c) == /\ Emitted(c.cfg, "ttl") <=> Emitted(c.cfg, "sticky")
                    /\ Emitted(c.cfg, "echo") => Emitted(c.cfg, "sticky")
